@@ -109,6 +109,7 @@ def run(ctx, replay=None):
             continue
         cases = _cases(trace)
         detail = {}
+        stats["aborted_cases"] = stats.get("aborted_cases", 0) + sum(1 for l in lines if l.startswith("ABORT "))
         for l in lines:
             if l.startswith(("DIFF ", "FAIL ")):
                 detail.setdefault(l.split()[1], []).append(l)
